@@ -67,6 +67,9 @@ package mongodb
 // ghost: first sequence number asked for by the last GetOperations; version of the latest stored
 // snapshot (0 if none); versions written by the last snapshot inserts
 //@ ghost field G.lastFrom mathint
+// how often the log was read, and whether the last read failed (a log of the calls, exempt from callers' frames)
+//@ ghost log field G.readCount mathint
+//@ ghost log field G.readFailed bool
 //@ ghost field G.snapSseq mathint
 //@ ghost field G.insSnapSseq mathint
 //@ ghost field G.insRealVer mathint
@@ -93,8 +96,8 @@ package mongodb
 //@   ensures len(result0) == len(result1)
 //@   ensures forall i int :: 0 <= i && i < len(result0) ==> result0[i] != nil && result0[i].ID != nil && result1[i] == from + i && result0[i].$sseq == from + i
 //@   ensures result2 == nil && to == constants.InfinitySseq ==> len(result0) == (from <= G.stored ? G.stored - from + 1 : 0)
-//@   ensures[records-range] G.lastFrom == from
-//@   modifies alloc, G:lastFrom, G:qKind, G:qColl, G:qFilter, G:qSort, G:qCount, G:qErr
+//@   ensures[records-range] G.lastFrom == from && G.readFailed == (result2 != nil) && G.readCount == old(G.readCount) + 1
+//@   modifies alloc, G:lastFrom, G:readFailed, G:readCount, G:qKind, G:qColl, G:qFilter, G:qSort, G:qCount, G:qErr
 
 //@ func (*MongoCollections).InsertOperations
 //@   trusted MongoDB InsertMany (all-or-error as far as the reply tells)
